@@ -173,6 +173,22 @@ def check(case):
         if type(res).__name__ != 'ProofError':
             sig += '/' + exc_sig(res)
         f = Fail(sig, f'{res!r}: {summ}')
+    if f is None and ok and expect:
+        # no verdict carried over: the very same entries, just accepted for this block, presented for a block id that differs
+        # only in the file hash / only in the root hash are signatures over another block
+        for which in ('file', 'root'):
+            r2, f2 = bytearray(root), bytearray(file)
+            (f2 if which == 'file' else r2)[31] ^= 1
+            blk2 = BlockIdExt(b['wc'], b['shard'], b['seqno'], bytes(r2), bytes(f2))
+            ok2, _ = call(check_block_signatures, nodes, sigs, blk2)
+            if ok2:
+                f = Fail(f'accepted/signature-for-other-block/after-earlier-acceptance/{which}-hash-differs',
+                         f'a set just accepted for (root, file) was accepted again for a block with another {which} hash: {summ}')
+                break
+        if f is None:
+            ok3, res3 = call(check_block_signatures, nodes, sigs, blk)
+            if not ok3:
+                f = Fail('rejected/valid-supermajority/second-call', f'{res3!r}: accepted once, rejected when presented again: {summ}')
     if f is not None and f.signature in _IGNORE:
         return None
     return f
